@@ -2796,7 +2796,12 @@ func (s *Server) serveConnCounted(c net.Conn, countConcurrency bool) error {
 			ctx.Request.bodyStream = nil
 		}
 
-		idleConnTime.Store(ctx.time.Unix())
+		if br == nil || br.Buffered() == 0 {
+			// With further pipelined requests already read the connection is
+			// not idle, and the response just written may still sit in the
+			// write buffer: Shutdown must not close it as an idle connection.
+			idleConnTime.Store(ctx.time.Unix())
+		}
 		s.setState(c, StateIdle)
 		ctx.Request.Reset()
 		ctx.Response.Reset()
